@@ -164,7 +164,12 @@ func NormalizeMessage(msg string) string {
 		msg = msg[:i]
 	}
 	msg = regexp.MustCompile("`[^`]*`").ReplaceAllString(msg, "`…`")
-	msg = regexp.MustCompile(`"[^"]*"`).ReplaceAllString(msg, `"…"`)
+	msg = regexp.MustCompile(`"[^"]*"`).ReplaceAllStringFunc(msg, func(q string) string {
+		if len(q) <= 26 && regexp.MustCompile(`^"[A-Za-z_][A-Za-z_0-9]*"$`).MatchString(q) {
+			return q // short keywords identify the construct
+		}
+		return `"…"`
+	})
 	msg = regexp.MustCompile(`[%@!#$][-a-zA-Z$._0-9]+`).ReplaceAllString(msg, "ID")
 	msg = reNum.ReplaceAllString(msg, "N")
 	if len(msg) > 160 {
